@@ -76,6 +76,10 @@ type Config struct {
 	MaxSteps   int           // hard cap on scheduling steps
 	Schedule   []int         // replay: explicit choices (negative n = run of n zeros); nil = generate
 	IdleLimit  time.Duration // simulated time without any runnable task after which the run is declared stalled
+	// OnEnd, if set, runs on the bubble's main goroutine right after the scheduler loop ended and
+	// before remaining tasks are torn down. Engines whose system under test keeps tickers running
+	// (a store) report their result and exit the process from here: such a bubble cannot end.
+	OnEnd func(s *Sim)
 	TraceSched bool          // keep a textual trace of scheduling decisions (debugging)
 }
 
@@ -176,6 +180,9 @@ func RunBubble(t *testing.T, cfg Config, root func(s *Sim)) (s *Sim) {
 		go s.taskMain(s.root, func() { root(s) })
 		s.loop()
 		s.simElapsed = time.Since(s.startTime)
+		if cfg.OnEnd != nil {
+			cfg.OnEnd(s)
+		}
 		s.shutdown()
 	})
 	return s
